@@ -8,6 +8,7 @@ CONSTANTS
  DedupMode = "peer+id"
  AtomicDedup = TRUE
  AllowRelay = FALSE
+ SigCache = "none"
  MCCfgs <- Cfg3
  Bodies = {x, y}
  MaxFSig = 99
